@@ -1,0 +1,10 @@
+//go:build verif
+// +build verif
+
+package srp
+
+// VerifGetInputCheckPassword (build tag verif) exposes getInputCheckPassword: the SRP computation with a
+// caller-supplied ephemeral secret.
+func VerifGetInputCheckPassword(password string, srpB []byte, mp *ModPow, random []byte) (*SrpAnswer, error) {
+	return getInputCheckPassword(password, srpB, mp, random)
+}
